@@ -53,6 +53,7 @@ var (
 // ---------------------------------------------------------------------------
 
 type Sorts struct {
+	mapKeySort map[string]string
 	decls     []string
 	seen      map[string]bool
 	structs   []structEntry
@@ -216,6 +217,10 @@ func (s *Sorts) mapSort(k, v Ty) string {
 	name := "M_" + mangle(ks) + "_" + mangle(vs)
 	if !s.seen[name] {
 		s.seen[name] = true
+		if s.mapKeySort == nil {
+			s.mapKeySort = map[string]string{}
+		}
+		s.mapKeySort[name] = ks
 		s.decls = append(s.decls, fmt.Sprintf("(declare-datatypes ((%s 0)) (((mk_%s (%s__dom (Array %s Bool)) (%s__val (Array %s %s)) (%s__card Int)))))", name, name, name, ks, name, ks, vs, name))
 	}
 	return name
